@@ -4,6 +4,7 @@ import random
 import fractions
 import numpy as np
 import z3
+from symx.core import twin_record as core_twin
 
 ID = 'C17'
 FUNCTIONS = ['gaddlemaps._auxilliary:rotation_matrix', 'gaddlemaps._auxilliary:calcule_base']
@@ -124,8 +125,7 @@ def run_case(case):
             nontrivial.append('path%d' % paths)
             R, ax = res['R'], res['ax']
             I = np.eye(3)
-            tw = ctx.reachable(cap)
-            records.append({'name': 'reachability-twin', 'status': 'twin' if tw[0] == 'sat' else 'twin-fail', 'secs': tw[1]})
+            records.append(core_twin(ctx, cap))
             if name.endswith('general'):
                 oblig(ctx, 'R^T R = I', _mat_eq(R.T.dot(R), I), inputs, 'rotation_matrix')
                 oblig(ctx, 'R R^T = I', _mat_eq(R.dot(R.T), I), inputs, 'rotation_matrix')
@@ -203,8 +203,7 @@ def run_case(case):
             continue
         nontrivial.append('path%d' % paths)
         v1, v2, v3, o, P, same = res
-        tw = ctx.reachable(cap)
-        records.append({'name': 'reachability-twin', 'status': 'twin' if tw[0] == 'sat' else 'twin-fail', 'secs': tw[1]})
+        records.append(core_twin(ctx, cap, inputs))
         F = [v1, v2, v3]
         for a in range(3):
             for b in range(a, 3):
